@@ -44,6 +44,12 @@ Proof. exact rejected_iff_cyclic. Qed.
 Theorem C14_names_a_command_on_a_cycle : forall P n, find_cycle P = Some n -> exists l, chain P n l n.
 Proof. exact reported_on_cycle. Qed.
 
+(* at run level: a run that ends in the recursive-model outcome got it from the pre-pass (pulling results never
+   produces it), so the outcome always names a command on a cycle -- from every state, with every fuel *)
+Theorem C14_recursive_outcome_sound : forall (V : Type) (F : cmd -> list V -> V) P fuel s n,
+  run_program F fuel P s = ErrRecursive n -> find_cycle P = Some n /\ exists l, chain P n l n.
+Proof. exact recursive_outcome_sound. Qed.
+
 Example C14_example :
   let P := [ {| nm := 0; rl := [(true, 1)] |}; {| nm := 1; rl := [(false, 2)] |}; {| nm := 2; rl := [(true, 1)] |};
              {| nm := 3; rl := [] |} ] in
@@ -59,3 +65,4 @@ Print Assumptions C14_accepted_iff_ranked.
 Print Assumptions C14_rejection_is_order_free.
 Print Assumptions C14_rejected_iff_cyclic.
 Print Assumptions C14_names_a_command_on_a_cycle.
+Print Assumptions C14_recursive_outcome_sound.
